@@ -247,3 +247,64 @@ Theorem C11_C09_likelihoods_agree : forall (lg : R -> R) (model data : lspec R) 
   v = ll lg (fold_c09 (ls_shape model)) (ls_folded model) (ls_folded data) (entries_of model) (entries_of data).
 Proof. exact ll_ls_is_C11_ll_with_C09_fold. Qed.
 Print Assumptions C11_C09_likelihoods_agree.
+
+(** ** hidden content (seed C11f): what is stored under a masked entry of the model or of the data is irrelevant.
+    [vis_eq a b] (Proofs/LikelihoodFoldLink.v) = Forall2 (same mask, same value where unmasked): same length, same
+    masks, arbitrary and possibly different values under the masks.  Every output of two visibly equal (model, data)
+    pairs is the same: scalars and residual arrays equal, masked arrays visibly equal.  [fold] is any function on flat
+    entry lists that maps visibly equal lists to visibly equal lists; the executable instance does (next theorem).
+    Over R a stored value cannot be nan or inf: the harness hands such content, and the same numbers in every container
+    type the API accepts, to the real code on every run (harness/props/c11_types.py). *)
+Theorem C11_hidden_content_irrelevant :
+  forall (lg : R -> R) (remask : bool) (fold : list entryR -> list entryR),
+  (forall a b, vis_eq a b -> vis_eq (fold a) (fold b)) ->
+  forall (cut : option R) (mf df : bool) (m m' d d' : list entryR),
+  vis_eq m m' -> vis_eq d d' ->
+  ll lg fold mf df m d = ll lg fold mf df m' d' /\
+  vis_eq (ll_per_bin lg fold mf df m d) (ll_per_bin lg fold mf df m' d') /\
+  optimal_sfs_scaling fold remask mf df m d = optimal_sfs_scaling fold remask mf df m' d' /\
+  vis_eq (optimally_scaled_sfs fold remask mf df m d) (optimally_scaled_sfs fold remask mf df m' d') /\
+  vis_eq (ll_multinom_per_bin lg fold remask mf df m d) (ll_multinom_per_bin lg fold remask mf df m' d') /\
+  ll_multinom lg fold remask mf df m d = ll_multinom lg fold remask mf df m' d' /\
+  linear_Poisson_residual fold cut mf df m d = linear_Poisson_residual fold cut mf df m' d' /\
+  Anscombe_Poisson_residual fold cut mf df m d = Anscombe_Poisson_residual fold cut mf df m' d'.
+Proof. exact hidden_content_irrelevant. Qed.
+Print Assumptions C11_hidden_content_irrelevant.
+
+(** the executable fold instance satisfies the hypothesis on [fold] (an entry of the folded spectrum is masked as
+    soon as one of the two entries it adds up is masked) *)
+Theorem C11_fold_flat_respects_hidden_content : forall (N : Z) (tot : list Z) (a b : list entryR),
+  vis_eq a b -> vis_eq (fold_flat N tot a) (fold_flat N tot b).
+Proof. exact fold_flat_vis. Qed.
+
+Theorem C11_hidden_content_irrelevant_fold_flat :
+  forall (lg : R -> R) (remask : bool) (N : Z) (tot : list Z) (cut : option R) (mf df : bool) (m m' d d' : list entryR),
+  vis_eq m m' -> vis_eq d d' ->
+  let fold := fold_flat N tot in
+  ll lg fold mf df m d = ll lg fold mf df m' d' /\
+  vis_eq (ll_per_bin lg fold mf df m d) (ll_per_bin lg fold mf df m' d') /\
+  optimal_sfs_scaling fold remask mf df m d = optimal_sfs_scaling fold remask mf df m' d' /\
+  vis_eq (optimally_scaled_sfs fold remask mf df m d) (optimally_scaled_sfs fold remask mf df m' d') /\
+  vis_eq (ll_multinom_per_bin lg fold remask mf df m d) (ll_multinom_per_bin lg fold remask mf df m' d') /\
+  ll_multinom lg fold remask mf df m d = ll_multinom lg fold remask mf df m' d' /\
+  linear_Poisson_residual fold cut mf df m d = linear_Poisson_residual fold cut mf df m' d' /\
+  Anscombe_Poisson_residual fold cut mf df m d = Anscombe_Poisson_residual fold cut mf df m' d'.
+Proof. exact hidden_content_irrelevant_fold_flat. Qed.
+Print Assumptions C11_hidden_content_irrelevant_fold_flat.
+
+(** non-vacuity: folded data, unfolded model, different raw values under the masks of both (0 / -3 / 1000 under the
+    data's corner and interior masks, 7 / -1 under the model's): same ll, same ll_multinom *)
+Example C11_nonvacuous_hidden_content : forall lg : R -> R,
+  let m  := [(7, true); (2, false); (1, false); (3, false); (5, true)] in
+  let m' := [(-1, true); (2, false); (1, false); (3, false); (0, true)] in
+  let d  := [(0, true); (4, false); (0, false); (0, true); (0, true)] in
+  let d' := [(-3, true); (4, false); (0, false); (1000, true); (8, true)] in
+  let fold := fold_flat 4 [0; 1; 2; 3; 4]%Z in
+  ll lg fold false true m d = ll lg fold false true m' d' /\
+  ll_multinom lg fold true false true m d = ll_multinom lg fold true false true m' d'.
+Proof. intros lg m m' d d' fold.
+  assert (Hm : vis_eq m m') by (repeat constructor; cbn; intros E; discriminate E).
+  assert (Hd : vis_eq d d') by (repeat constructor; cbn; intros E; discriminate E).
+  destruct (C11_hidden_content_irrelevant_fold_flat lg true 4 [0; 1; 2; 3; 4]%Z None false true m m' d d' Hm Hd)
+    as [A [_ [_ [_ [_ [B _]]]]]].
+  split; assumption. Qed.
